@@ -366,6 +366,13 @@ func FilterPMTPacketsToPids(packets []*packet.Packet, pids []int) ([]*packet.Pac
 	// Copy everything from the pointerfield offset and move the pmtPayload slice to the start of that
 	filteredPMT.Write(pmtPayload[:pointerField])
 	pmtPayload = pmtPayload[pointerField:]
+	// The filter reads the first section only: a section too short for the fixed part of a PMT has no
+	// stream loop, and what follows the section (the payload may be longer than 64 KiB) is not part of it.
+	firstSectionLen := 3 + int(sectionLength(pmtPayload))
+	if firstSectionLen < programInfoLengthOffset+2+int(CrcLen) {
+		return nil, gots.ErrPMTParse
+	}
+	pmtPayload = pmtPayload[:firstSectionLen]
 	// Copy the first 12 bytes of the PMT packet. Only section_length will change.
 	filteredPMT.Write(pmtPayload[:programInfoLengthOffset+2])
 
